@@ -182,13 +182,7 @@ func (st *c13State) checkRates() {
 	st.prevRates = cur
 }
 
-func keysOf(m map[uint32]bool) []uint32 {
-	var ks []uint32
-	for k := range m {
-		ks = append(ks, k)
-	}
-	return ks
-}
+func keysOf(m map[uint32]bool) []uint32 { return mapKeysU32(m) }
 
 func (st *c13State) onPark(p *Parked) {
 	w := st.w
